@@ -324,4 +324,84 @@ def run(tier, seed):
             ok = bool(cl) and all(any(nf.dominates(c.block.id, e.block.id) and (c.block.id != e.block.id or c.idx < e.idx) for c in cl) for e in eff)
             rep.check(rid, ok and bool(eff), "lha_reader_next_file closes the decoder before it advances the input or changes the current entry (%d effect sites)" % len(eff),
                       nf.file, None, function=nf.cname, obj="close-first")
+        # ---- R5: the lead-in buffer is empty before any skip ----------------------------------------------------------------------
+        # lha_input_stream_skip goes straight to the underlying stream; bytes still waiting in the lead-in buffer would be skipped over
+        # *in addition*, so how a member is passed over would change what follows.  It is sound only because every successful header
+        # read drains the buffer: the buffer's capacity does not exceed the least number of bytes a successful header read consumes.
+        rid = rep.rule("R5", "lead-in capacity <= bytes consumed by any successful header read (so lha_input_stream_skip never runs with buffered bytes)", 2)
+        from ..lin import Lin, linform
+        cap = None
+        st = mod.types.get("%struct._LHAInputStream") or {}
+        for fdesc in st.get("fields", []):
+            if fdesc.get("name") == "leadin":
+                mm = __import__("re").match(r"\[(\d+) x i8\]", fdesc.get("ty", ""))
+                cap = int(mm.group(1)) if mm else None
+        if cap is None:
+            rep.broken(rid, "capacity of LHAInputStream.leadin not found in the type information")
+        sk = rep.need(rid, mod.fn("lha_input_stream_skip"), "function lha_input_stream_skip")
+        if sk:
+            uses = [i for i in sk.insts() if i.op in ("load", "store") and Matcher(sk).match(("field", "LHAInputStream", "leadin_len", ANY), i.ops[0] if i.op == "load" else i.ops[1], {}) is not None]
+            rep.extra["skip_accounts_for_leadin"] = bool(uses)
+        else:
+            uses = []
+        mins = {}
+        RAWP = ("load", ("field", HDR, "raw_data", ("load", ("param", 0))))
+        for lname in ("decode_level0_header", "decode_level2_header", "decode_level3_header"):
+            lf = rep.need(rid, mod.fn(lname), "function " + lname)
+            if not lf:
+                continue
+            Fl, Ml = ctx.facts(lf), Matcher(lf)
+
+            def symf(o, Ml=Ml):
+                if Ml.match(("load", ("gep", RAWP, [0])), o, {}) is not None:
+                    return "h8"
+                if Ml.match(("call", "lha_decode_uint16", [("gep", RAWP, [0])]), o, {}) is not None:
+                    return "h16"
+                if Ml.match(("load", ("field", HDR, "raw_data_len", ("load", ("param", 0)))), o, {}) is not None:
+                    return "rawlen"
+                return None
+            # the first extension on the way to success: total length after it = rawlen + n
+            calls = [c for c in lf.calls("extend_raw_data")]
+            first = [c for c in calls if not any(o is not c and (lf.dominates(o.block.id, c.block.id) and o.block.id != c.block.id) for o in calls)]
+            best = None
+            for c in first[:1]:
+                n = linform(lf, c.ops[2], symf)
+                if n is None:
+                    continue
+                tot = n.add(Lin(0, {"rawlen": 1}))
+                if tot.is_const():
+                    best = tot.c
+                elif set(tot.t) <= {"h8", "h16"} and sum(tot.t.values()) == 1:
+                    hs = [k for k in tot.t][0]
+                    # lower bound of the length field among the facts at the call
+                    lo = None
+                    for f in Fl.at_inst(c):
+                        if f[0] in ("uge", "ugt") and symf(Ml.strip(f[1])) == hs or (f[0] in ("uge", "ugt") and linform(lf, f[1], symf) == Lin(0, {hs: 1})):
+                            vals = [const_val(x) for x, _ in Fl.sources(f[2]) if is_const(x)]
+                            if vals and len(vals) == len(Fl.sources(f[2])):
+                                b0 = min(vals) + (1 if f[0] == "ugt" else 0)
+                                lo = b0 if lo is None else max(lo, b0)
+                    if lo is not None:
+                        best = lo + tot.c
+            if best is None:
+                rep.broken(rid, "%s: cannot recover the least total length read on success" % lname)
+            else:
+                mins[lname] = best
+        if cap is not None and len(mins) == 3:
+            least = min(mins.values())
+            rep.check(rid, bool(uses) or cap <= least, "lead-in capacity %d <= least bytes consumed by a successful header read %d (%s)" % (cap, least, mins),
+                      "lib/lha_input_stream.c", "a header of %d bytes leaves %d member bytes in the lead-in buffer, which lha_input_stream_skip passes over in addition" % (least, cap - least),
+                      function="lha_input_stream_skip", obj="leadin-capacity")
+            # and every successful header read starts by draining the buffer: lha_input_stream_read copies leadin first
+            rd_ = mod.fn("lha_input_stream_read")
+            if rd_:
+                Mr = Matcher(rd_)
+                mc = [c for c in rd_.insts() if c.op == "call" and (c.callee or "").startswith("llvm.memcpy") and Mr.match(("gep", ("field", "LHAInputStream", "leadin", ANY), [0]), c.ops[1], {}) is not None
+                      or (c.op == "call" and (c.callee or "").startswith("llvm.memcpy") and Mr.match(("field", "LHAInputStream", "leadin", ANY), c.ops[1], {}) is not None)]
+                rep.check(rid, len(mc) >= 1, "lha_input_stream_read serves buffered lead-in bytes first", rd_.file, None, function=rd_.cname, obj="drain-first")
+            rep.extra["min_header_read"] = mins
+
+        # ---- the end of the archive is reported, not the previous member again (rule shared with C12) --------------------------
+        from .c12 import end_consistency_rules
+        end_consistency_rules(rep, ctx, mod, prefix="C12.")
     return rep.finish(seed)
